@@ -341,6 +341,94 @@ fn sc_lock_file_addressable() -> Option<String> {
     None
 }
 
+/// thorough tier: a random request program, its requests dealt alternately to two real server processes on one root (one
+/// request at a time: the one-at-a-time execution IS the program order), checked reply by reply and tree against the
+/// sequential compare-and-swap semantics of the property. Paths include refused ones; `expected` is right, stale or None.
+pub fn random_program(rseed: u64) -> Option<String> {
+    use std::collections::BTreeMap;
+    let mut rng = crate::rng::Rng(rseed ^ 0x5E77_E000);
+    let r = root(&format!("rand{rseed}"));
+    let mut srv = [Srv::start(&r)?, Srv::start(&r)?];
+    srv[0].magic(); srv[1].magic();
+    const P: [&str; 6] = ["a", "d/b", "d/c.txt", "../x", ".copia/commit.lock", "/abs"];
+    let contents: Vec<Vec<u8>> = vec![b"one".to_vec(), b"two-two".to_vec(), vec![], vec![7u8; 300_000], { let mut v = vec![1u8; 10]; v.extend(vec![0u8; 270_000]); v }];
+    let mut model: BTreeMap<String, Vec<u8>> = BTreeMap::new();
+    let refused = |p: &str| p.starts_with('/') || p.split('/').any(|c| c == "..") || p.split('/').find(|c| !c.is_empty() && *c != ".") == Some(".copia");
+    let n = 6 + rng.below(14);
+    let mut res = None;
+    let mut trace = vec![];
+    for step in 0..n {
+        let s = &mut srv[(rng.below(2)) as usize];
+        let np = if rng.below(4) == 0 { 6 } else { 3 };
+        let p = P[rng.below(np) as usize];
+        let cur = model.get(p).map(|b| h(b));
+        let expected = match rng.below(3) { 0 => cur, 1 => Some(h(b"something stale")), _ => None };
+        match rng.below(8) {
+            0..=3 => {
+                let c = &contents[rng.below(contents.len() as u64) as usize];
+                trace.push(format!("Put({p}, {} B, expected {})", c.len(), if expected == cur { "current" } else { "stale" }));
+                let got = s.put(p, expected, c);
+                let want_ok = match (&got, refused(p)) {
+                    (Some(Response::Error(_)), true) => true,
+                    (Some(Response::PutResult { committed: true, current }), false) => { let ok = expected == cur && *current == Some(h(c)); if ok { model.insert(p.to_string(), c.clone()); } ok }
+                    (Some(Response::PutResult { committed: false, current }), false) => { let ok = expected != cur && *current == cur; if ok { model.insert(format!("{p}.conflict-{}", crate::cli::wire::short_hash(&h(c))), c.clone()); } ok }
+                    _ => false,
+                };
+                if !want_ok { res = Some(format!("step {step} {}: reply {got:?} is not the reply of the sequential compare-and-swap (hub hash was {})", trace.last().unwrap(), if cur.is_some() { "present" } else { "absent" })); break; }
+            }
+            4 | 5 => {
+                trace.push(format!("Delete({p}, expected {})", if expected == cur { "current" } else { "stale" }));
+                s.send(&Request::Delete { path: p.into(), expected });
+                let got = s.recv(10);
+                let ok = match (&got, refused(p)) {
+                    (Some(Response::Error(_)), true) => true,
+                    (Some(Response::DeleteResult { deleted: true, .. }), false) => { let ok = expected == cur; if ok { model.remove(p); } ok }
+                    (Some(Response::DeleteResult { deleted: false, current }), false) => expected != cur && *current == cur,
+                    _ => false,
+                };
+                if !ok { res = Some(format!("step {step} {}: reply {got:?} is not the reply of the sequential compare-and-swap", trace.last().unwrap())); break; }
+            }
+            6 => {
+                trace.push(format!("Get({p})"));
+                s.send(&Request::Get { path: p.into() });
+                match (s.recv(10), model.get(p), refused(p)) {
+                    (Some(Response::Error(_)), _, true) | (Some(Response::Error(_)), None, false) => {}
+                    (Some(Response::Content { len, hash }), Some(c), false) => { let mut v = vec![0u8; len as usize]; let rd = s.r.read_exact(&mut v).is_ok(); if !rd || &v != c || hash != h(c) { res = Some(format!("step {step} Get({p}): announced {len} bytes, delivered content differs from the last committed write")); break; } }
+                    (o, _, _) => { res = Some(format!("step {step} Get({p}): unexpected reply {o:?}")); break; }
+                }
+            }
+            _ => {
+                trace.push("List".into());
+                s.send(&Request::List);
+                match s.recv(10) {
+                    Some(Response::Fingerprints(m)) => { let got: BTreeMap<String, Hash> = m.into_iter().map(|(k, f)| (k, f.blake3)).collect(); let want: BTreeMap<String, Hash> = model.iter().map(|(k, v)| (k.clone(), h(v))).collect(); if got != want { res = Some(format!("step {step} List: the hub lists {:?}, the sequential execution has {:?}", got.keys().collect::<Vec<_>>(), want.keys().collect::<Vec<_>>())); break; } }
+                    o => { res = Some(format!("step {step} List: unexpected reply {o:?}")); break; }
+                }
+            }
+        }
+    }
+    let [s0, s1] = srv; let _ = s0.close_and_wait(5); let _ = s1.close_and_wait(5);
+    if res.is_none() {
+        let live: BTreeMap<String, Vec<u8>> = live_files(&r).into_iter().filter(|(p, _)| !p.ends_with(".copia-tmp")).collect();
+        if live != model { res = Some(format!("final hub tree {:?} differs from the sequential execution {:?}", live.keys().collect::<Vec<_>>(), model.keys().collect::<Vec<_>>())); }
+    }
+    let _ = std::fs::remove_dir_all(&r);
+    res.map(|w| format!("[random program {rseed}: {}] {w} (C03/C10/C11/C12)", trace.join("; ")))
+}
+pub fn search_t(contract: &str, as_twin: bool, seed: u64, budget: u64) -> i32 {
+    let rc = search(contract, as_twin);
+    if budget > 30 && !std::env::var("COPIA_BIN").unwrap_or_default().is_empty() {
+        let t0 = std::time::Instant::now();
+        let mut n = 0u64;
+        while t0.elapsed().as_secs() < budget.min(60) && n < 2000 {
+            let rseed = seed.wrapping_mul(1000).wrapping_add(n);
+            if let Some(what) = random_program(rseed) { println!("WITNESS {{\"kind\":\"serve\",\"scenario\":9999,\"rseed\":{rseed},\"name\":\"random-{rseed}\",\"what\":\"{}\"}}", what.replace('"', "'").replace('\n', " ")); }
+            n += 1;
+        }
+        if as_twin { println!("CASES {}", scenarios().len() as u64 + n); }
+    }
+    rc
+}
 pub fn search(contract: &str, as_twin: bool) -> i32 {
     if std::env::var("COPIA_BIN").unwrap_or_default().is_empty() { eprintln!("COPIA_BIN not set"); if as_twin { println!("CASES 0"); } return 0; }
     let _ = contract;
@@ -356,6 +444,7 @@ pub fn search(contract: &str, as_twin: bool) -> i32 {
 }
 pub fn run_w(w: &str) -> i32 {
     let i = json_u64(w, "scenario").unwrap_or(0) as usize;
+    if i == 9999 { return match random_program(json_u64(w, "rseed").unwrap_or(0)) { Some(what) => { println!("REPRODUCED: {what}"); 1 } None => { println!("not reproduced: the random program behaves as its sequential execution"); 0 } }; }
     let sc = scenarios();
     let (name, f) = &sc[i.min(sc.len() - 1)];
     match f() { Some(what) => { println!("REPRODUCED: [{name}] {what}"); 1 } None => { println!("not reproduced: scenario `{name}` behaves as the property requires"); 0 } }
